@@ -505,6 +505,9 @@ func (m *ctlModel) eval(fr *mFrame, e Expr) (mValue, completion) {
 		}
 		return l, normalC
 	case *EIt:
+		if e.Wrap {
+			return &mIb{site: e.Site, n: e.N, flags: e.Flags}, normalC
+		}
 		return &mIt{site: e.Site, n: e.N, flags: e.Flags}, normalC
 	case *EArr:
 		vals, c := m.evalArgs(fr, e.Elems)
